@@ -115,7 +115,8 @@ def generate(seed, tier, idx=0):
                 # the payload is a dict subclass whose [] invents values for absent keys
                 # (Counter, defaultdict): absent declared keys are still absent
                 probes[-1].append(rng.choice(["counter", "defaultdict_int", "defaultdict_str",
-                                              "missing_first_value"]))
+                                              "missing_first_value", "mappingproxy",
+                                              "userdict", "chainmap"]))
                 continue
             if isinstance(payload, dict) and rng.random() < 0.3:
                 # a producer that reuses one payload dict: the SAME object, changed
@@ -442,6 +443,13 @@ def check_metadata(case):
                 payload = collections.defaultdict(int, payload)
             elif kind == "defaultdict_str":
                 payload = collections.defaultdict(str, payload)
+            elif kind == "mappingproxy":
+                import types
+                payload = types.MappingProxyType(dict(payload))      # a Mapping, not a dict
+            elif kind == "userdict":
+                payload = collections.UserDict(payload)
+            elif kind == "chainmap":
+                payload = collections.ChainMap(dict(payload))
             else:
                 first = next(iter(payload.values()), 0)
 
